@@ -117,13 +117,16 @@ def _r04b(rep):
     # mapping table; the label must be the full symbol (index-decorated symbols such as Cr1/Cr2 share one atomic number)
     defs = {core.src(s.targets[0]): s.value for s in ast.walk(pf) if isinstance(s, ast.Assign) and len(s.targets) == 1 and isinstance(s.targets[0], ast.Name)}
     verdict, shown = None, "<no rejecting comparison through mapping_table>"
+    # by role: the table is the third result of _trim_cell, the supercell the first parameter
+    mt_name = next((core.src(st.targets[0].elts[2]) for st in ast.walk(pf) if isinstance(st, ast.Assign) and isinstance(st.value, ast.Call) and core.src(st.value.func) == "_trim_cell" and isinstance(st.targets[0], ast.Tuple) and len(st.targets[0].elts) == 3), "mapping_table")
+    sc_name = pf.args.args[1].arg if len(pf.args.args) > 1 else "supercell"
     for n in ast.walk(pf):
         if not (isinstance(n, ast.If) and any(isinstance(b, ast.Raise) for st in n.body for b in ast.walk(st))):
             continue
         exprs = [n.test] + [defs[x.id] for x in ast.walk(n.test) if isinstance(x, ast.Name) and x.id in defs]
         names = {x.id for e in exprs for x in ast.walk(e) if isinstance(x, ast.Name)}
-        attrs = {x.attr for e in exprs for x in ast.walk(e) if isinstance(x, ast.Attribute) and core.src(x.value) == "supercell"}
-        if "mapping_table" not in names or not attrs:
+        attrs = {x.attr for e in exprs for x in ast.walk(e) if isinstance(x, ast.Attribute) and core.src(x.value) == sc_name}
+        if mt_name not in names or not attrs:
             continue
         shown = core.norm(core.src(n.test), 70) + f" [supercell.{'/'.join(sorted(attrs))} through mapping_table]"
         verdict = "symbols" in attrs
